@@ -27,7 +27,7 @@ RULE = ("sub-workloads on falsy data: single (C01 shapes, ordered list compare),
         "expressions whose value is falsy), rule (C11 heads whose arguments evaluate to 0/''/None/False or are falsy "
         "constants), predform (T(From(d), field=<falsy constant>) vs explicit form), flatten (inner lists of scalars "
         "including 0, '', None, False and empty lists), concat (all lists empty; falsy elements; membership of falsy "
-        "values), shared (one attribute expression object used by 2-3 queries as condition, comparison/membership operand and selected output, evaluated in random order). Non-trivial: the case contains at least one falsy value in value position that belongs to a row of the "
+        "values), expr_domain (an attribute of a variable or the flatten of its collection given as the DOMAIN of another variable, let(T, domain=expr) and T(From(expr)), alone and joined), shared (one attribute expression object used by 2-3 queries as condition, comparison/membership operand and selected output, evaluated in random order). Non-trivial: the case contains at least one falsy value in value position that belongs to a row of the "
         "expected result or decides its absence. distinct by structural hash.")
 LEVEL_TEXT = ("Reference-model monitoring on a data class the other checks exclude: same oracles, datasets saturated with falsy "
               "values, so that a truthiness test creeping into any value path (operand, output, argument) drops or adds rows.")
